@@ -327,6 +327,7 @@ theorem create_eq (db : Db) (cls : Cls) (q : Qty) (x : PyVal) :
 def PyVal.isTuple : PyVal → Bool
   | .seq .tuple _ => true
   | .rows .tuple _ => true
+  | .nest .tuple _ => true
   | _ => false
 
 /-- only Scalar looks for a tuple -/
@@ -340,6 +341,7 @@ theorem construct_eq (db : Db) (cls : Cls) (a1 a2 : PyVal) (a3 : Atom)
     split
     · simp [PyVal.isTuple] at h'
     · simp [PyVal.isTuple] at h'
+    · simp [PyVal.isTuple] at h'
     · rfl
   | array => rfl
   | fixed d => rfl
@@ -350,6 +352,7 @@ theorem isValueFor_notNone {cls : Cls} {x : PyVal} (h : x.isValueFor cls = true)
   | atom a => cases a <;> simp_all [PyVal.isValueFor, PyVal.isNone]
   | seq k l => rfl
   | rows k l => rfl
+  | nest k l => rfl
   | fv n f => rfl
   | qty q => rfl
 
@@ -358,6 +361,7 @@ theorem isValueFor_notTuple {x : PyVal} (h : x.isValueFor .scalar = true) : x.is
   | atom a => rfl
   | seq k l => cases k <;> simp_all [PyVal.isValueFor, PyVal.isTuple]
   | rows k l => cases k <;> simp_all [PyVal.isValueFor, PyVal.isTuple]
+  | nest k l => cases k <;> simp_all [PyVal.isValueFor, PyVal.isTuple]
   | fv n f => rfl
   | qty q => rfl
 
@@ -369,6 +373,7 @@ theorem abstractInit_value_first (db : Db) (cls cls' : Cls) {x : PyVal} (h : x.i
   | atom a => cases a <;> simp_all [PyVal.isValueFor, abstractInit, juggle]
   | seq k l => simp [abstractInit, juggle]
   | rows k l => simp [abstractInit, juggle]
+  | nest k l => simp [abstractInit, juggle]
   | fv n f => simp [abstractInit, juggle]
   | qty q => simp [PyVal.isValueFor] at h
 
@@ -457,6 +462,7 @@ theorem elemEq_symm (a b : Elem) : elemEq a b = elemEq b a := by
   cases a <;> cases b <;> simp only [elemEq]
   · exact atomEq_symm ..
   · exact atomsEq_symm ..
+  · exact atomsEq_symm ..
 
 theorem elemsEq_symm : ∀ l m : List Elem, elemsEq l m = elemsEq m l
   | [], [] => rfl
@@ -470,6 +476,7 @@ theorem pyTuple_error {v : PyVal} {e : ErrKind} (h : pyTuple v = .error e) : e =
   | atom a => cases a <;> simp_all [pyTuple]
   | seq k l => simp [pyTuple] at h
   | rows k l => simp [pyTuple] at h
+  | nest k l => simp [pyTuple] at h
   | fv n f => simp_all [pyTuple]
   | qty q => simp_all [pyTuple]
 
@@ -610,6 +617,8 @@ theorem obtainQuantityC_caption {db : Db} {unit : PyVal} {category cap : Atom} {
   · cases h
   · exact obtainRowsC_caption h
   · exact obtainRowsC_caption h
+  · exact obtainRowsC_caption h
+  · exact obtainRowsC_caption h
   · exact obtainAtomC_caption h
   · split at h
     · cases h
@@ -662,6 +671,7 @@ theorem hrun_eq_run (lg : List (Sym × Sym)) : ∀ (ops : List HOp) (r : Reg.Reg
   | .reg op :: ops, r => by simp only [hrun, regsOf, Reg.run, hstep]; exact hrun_eq_run lg ops _
   | .defcat u :: ops, r => by simp only [hrun, regsOf, hstep]; exact hrun_eq_run lg ops _
   | .calls cs :: ops, r => by simp only [hrun, regsOf, hstep]; exact hrun_eq_run lg ops _
+  | .mut c ms :: ops, r => by simp only [hrun, regsOf, hstep]; exact hrun_eq_run lg ops _
 
 theorem hrun_append (lg : List (Sym × Sym)) : ∀ (ops ops' : List HOp) (r : Reg.Registry),
     hrun lg r (ops ++ ops') = hrun lg (hrun lg r ops) ops'
